@@ -1398,7 +1398,7 @@ func (r *Rsvcb) UnmarshalText(text []byte) error {
 	f := fields(text)
 
 	r.dom, r.iswildcard = getdom(f[0])
-	r.tgtname, _ = getdom(f[1])
+	r.tgtname, _ = quote.Bunquote(f[1]) // BUG: handle error
 
 	getuint32(f[2], &r.ttl)
 
